@@ -10,10 +10,10 @@
 import OidcModel.Model.Exchange
 import OidcModel.Model.Device
 import OidcModel.Generated.TETypes
+import OidcModel.Generated.TEGetters
 import OidcModel.Generated.TokenEndpoint
-
-/-- `map[string]any` claims carried along (opaque to every decision) -/
-abbrev TEClaims := List (String × String)
+import OidcModel.Generated.Claims
+import OidcModel.GoX
 
 /-- `*oidc.AccessTokenClaims` (nil-able pointer) -/
 structure TEATClaims where
@@ -69,30 +69,55 @@ structure TEIn where
   Audience : List String := []
   deriving DecidableEq, Repr, Inhabited
 
-/-- `op.tokenExchangeRequest` -/
-structure TEReq where
-  exchangeSubjectTokenIDOrToken : String := ""
-  exchangeSubjectTokenType : String := ""
-  exchangeSubject : String := ""
-  exchangeSubjectTokenClaims : TEClaims := []
-  exchangeActorTokenIDOrToken : String := ""
-  exchangeActorTokenType : String := ""
-  exchangeActor : String := ""
-  exchangeActorTokenClaims : TEClaims := []
-  resource : List String := []
-  audience : List String := []
-  scopes : List String := []
-  requestedTokenType : String := ""
-  clientID : String := ""
-  authTime : Int := 0
-  subject : String := ""
+/-- `*oidc.AccessTokenClaims` as `CreateJWT` builds and signs them: the registered claims of the REGENERATED constructor
+    `oidc.NewAccessTokenClaims` (Generated/Claims.lean), the private claims a storage hook supplied, the `act` member -/
+structure TEJWTClaims extends TokenClaimsGo where
+  Claims : TEClaims := []
+  Actor : String := ""
   deriving DecidableEq, Repr, Inhabited
 
+/-- `*oidc.UserInfo`: the subject `SetUserInfo` copies, and everything else a storage hook put in (among it the `act` member) -/
+structure TEUserInfo where
+  Subject : String := ""
+  Claims : TEClaims := []
+  deriving DecidableEq, Repr, Inhabited
+
+/-- `*oidc.IDTokenClaims` as `CreateIDToken` builds and signs them -/
+structure TEIDTokenClaims extends TokenClaimsGo where
+  AccessTokenHash : String := ""
+  CodeHash : String := ""
+  Actor : String := ""
+  UserInfo : TEUserInfo := {}
+  deriving DecidableEq, Repr, Inhabited
+
+/-- `(*IDTokenClaims).SetUserInfo` (pkg/oidc/token.go): the subject and all userinfo members are overwritten -/
+def TEIDTokenClaims.SetUserInfo (c : TEIDTokenClaims) (i : TEUserInfo) : TEIDTokenClaims :=
+  { c with Subject := i.Subject, UserInfo := i }
+
+namespace TEConst
+def AccessTokenTypeJWT : Nat := 1
+def ScopeProfile := "profile"
+def ScopeEmail := "email"
+def ScopeAddress := "address"
+def ScopePhone := "phone"
+end TEConst
+
+namespace TEScoped
+/-- Go's `+` on strings (scoped: only the generated file of this slice opens the namespace) -/
+scoped instance : HAdd String String String := ⟨fun a b => a ++ b⟩
+end TEScoped
+
+/-! the getters of `*tokenExchangeRequest` are REGENERATED (Generated/TEGetters.lean); here only the method-call spelling -/
 namespace TEReq
-def GetRequestedTokenType (r : TEReq) := r.requestedTokenType
-def GetScopes (r : TEReq) := r.scopes
-def GetSubject (r : TEReq) := r.subject
-def GetAudience (r : TEReq) := r.audience
+def GetRequestedTokenType (r : TEReq) := GenTEGet.GetRequestedTokenType 0 r
+def GetScopes (r : TEReq) := GenTEGet.GetScopes 0 r
+def GetSubject (r : TEReq) := GenTEGet.GetSubject 0 r
+def GetAudience (r : TEReq) := GenTEGet.GetAudience 0 r
+def GetAuthTime (r : TEReq) := GenTEGet.GetAuthTime 0 r
+def GetClientID (r : TEReq) := GenTEGet.GetClientID 0 r
+def GetAMR (r : TEReq) := GenTEGet.GetAMR 0 r
+def GetExchangeSubject (r : TEReq) := GenTEGet.GetExchangeSubject 0 r
+def GetExchangeActor (r : TEReq) := GenTEGet.GetExchangeActor 0 r
 end TEReq
 
 /-- a `TokenRequest` interface value as a type switch sees it: which of the case types its dynamic type satisfies -/
@@ -101,12 +126,23 @@ structure TEAnyReq where
   is_TokenExchangeRequest : Bool := false
   is_RefreshTokenRequest : Bool := false
   is_DeviceAuthorizationState : Bool := false
+  is_TokenActorRequest : Bool := false
   req : TEReq := {}
   deriving DecidableEq, Repr, Inhabited
 
 namespace TEAnyReq
-def GetScopes (a : TEAnyReq) := a.req.scopes
-def GetRequestedTokenType (a : TEAnyReq) := a.req.requestedTokenType
+def GetScopes (a : TEAnyReq) := a.req.GetScopes
+def GetSubject (a : TEAnyReq) := a.req.GetSubject
+def GetAudience (a : TEAnyReq) := a.req.GetAudience
+/-- `*op.tokenExchangeRequest` has no such method either (dead unless the value satisfied `TokenActorRequest`) -/
+def GetActor (_a : TEAnyReq) : String := ""
+def GetAuthTime (a : TEAnyReq) := a.req.GetAuthTime
+def GetClientID (a : TEAnyReq) := a.req.GetClientID
+def GetAMR (a : TEAnyReq) : List String := a.req.GetAMR
+/-- `AuthRequest` only (dead for an exchange request) -/
+def GetACR (_a : TEAnyReq) : String := ""
+def GetNonce (_a : TEAnyReq) : String := ""
+def GetRequestedTokenType (a : TEAnyReq) := a.req.GetRequestedTokenType
 /-- `*op.tokenExchangeRequest` has no such method (the branch is dead unless the value satisfied `AuthRequest`) -/
 def GetResponseType (_a : TEAnyReq) : String := ""
 end TEAnyReq
@@ -117,7 +153,19 @@ def TEReq.asTokenRequest (r : TEReq) : TEAnyReq :=
     is_TokenExchangeRequest := GenTE.tokenExchangeRequest_satisfies.contains "TokenExchangeRequest",
     is_RefreshTokenRequest := GenTE.tokenExchangeRequest_satisfies.contains "RefreshTokenRequest",
     is_DeviceAuthorizationState := GenTE.tokenExchangeRequest_satisfies.contains "DeviceAuthorizationState",
+    is_TokenActorRequest := GenTE.tokenExchangeRequest_satisfies.contains "TokenActorRequest",
     req := r }
+
+/-- `storage.SigningKey` + go-jose: the key is usable or not (`SignerFromKey`), and what signing access-token claims with it
+    yields (`crypto.Sign`) - an oracle; the default is a readable rendering of what the token carries -/
+structure TESigningKey where
+  signerOK : Bool := true
+  SignatureAlgorithm : String := "RS256"
+  signID : TEIDTokenClaims → Go.R String := fun c =>
+    .ok ("idt(" ++ c.Subject ++ ":" ++ ";".intercalate (c.UserInfo.Claims.map fun kv => kv.1 ++ "=" ++ kv.2) ++ ")")
+  signAT : TEJWTClaims → Go.R String := fun c =>
+    .ok ("jwt(" ++ c.JWTID ++ ":" ++ c.Subject ++ ":" ++ ";".intercalate (c.Claims.map fun kv => kv.1 ++ "=" ++ kv.2) ++ ")")
+  deriving Inhabited
 
 /-- the storage as the token-exchange code sees it (`is_…` = implements the optional interface) -/
 structure TEStore where
@@ -130,10 +178,28 @@ structure TEStore where
   CreateTokenExchangeRequest : TEReq → Go.R TEReq := fun r => .ok r
   CreateAccessAndRefreshTokens : TEAnyReq → String → Go.R (String × String × Int) := fun _ _ => .ok ("at1", "rt1", 300 * Go.second)
   CreateAccessToken : TEAnyReq → Go.R (String × Int) := fun _ => .ok ("at1", 300 * Go.second)
+  -- the private claims of a JWT access token: the exchange storage's hook, the optional `CanGetPrivateClaimsFromRequest`, the base hook
+  is_CanGetPrivateClaimsFromRequest : Bool := false
+  GetPrivateClaimsFromTokenExchangeRequest : TEAnyReq → Go.R TEClaims := fun _ => .ok []
+  GetPrivateClaimsFromRequest : TEAnyReq → List String → Go.R TEClaims := fun _ _ => .ok []
+  GetPrivateClaimsFromScopes : String → String → List String → Go.R TEClaims := fun _ _ _ => .ok []
+  SigningKey : Go.R TESigningKey := .ok {}
+  -- the client OBJECTS are the storage's too: what their methods beyond the registry's `OPClient` answer
+  ClientAccessTokenType : OPClient → Nat := fun _ => 0
+  ClientClockSkew : OPClient → Int := fun _ => 0
+  ClientRestrictAdditionalAccessTokenScopes : OPClient → List String → List String := fun _ s => s
+  -- the userinfo of an ID token: the exchange storage's hook, the base hook, the optional `CanSetUserinfoFromRequest`
+  is_CanSetUserinfoFromRequest : Bool := false
+  SetUserinfoFromTokenExchangeRequest : TEUserInfo → TEAnyReq → Go.R TEUserInfo := fun u _ => .ok u
+  SetUserinfoFromScopes : TEUserInfo → String → String → List String → Go.R TEUserInfo := fun u _ _ _ => .ok u
+  SetUserinfoFromRequest : TEUserInfo → TEAnyReq → List String → Go.R TEUserInfo := fun u _ _ => .ok u
+  ClientRestrictAdditionalIdTokenScopes : OPClient → List String → List String := fun _ s => s
+  ClientIDTokenUserinfoClaimsAssertion : OPClient → Bool := fun _ => false
   deriving Inhabited
 
 structure TECrypto where
   Decrypt : String → Go.R String := fun _ => .error "decrypt"
+  Encrypt : String → Go.R String := fun s => .ok ("enc(" ++ s ++ ")")
   deriving Inhabited
 structure TEATVerifier where
   verify : String → Go.R TEATClaims := fun _ => .error "invalid"
@@ -151,6 +217,31 @@ structure TEProvider where
   IDTokenHintVerifier : TEHintVerifier := {}
   deriving Inhabited
 
+/-! the Server router (`RegisterLegacyServer(NewLegacyServer(provider))`): the handler `webServer.tokenExchangeHandler` and
+    `LegacyServer.TokenExchange` are regenerated too; `withClient` (client authentication + registered grant) is the C05 slice's -/
+
+/-- `*ClientRequest[oidc.TokenExchangeRequest]` -/
+structure TEClientRequest where
+  Data : TEIn := {}
+  Client : OPClient := {}
+  deriving Repr, Inhabited
+structure TELegacyServer where
+  provider : TEProvider := {}
+  deriving Inhabited
+structure TEWebServer where
+  server : TELegacyServer := {}
+  decoder : Unit := ()
+  deriving Inhabited
+/-- the `*http.Request` as the handler sees it: what `decodeRequest` makes of the form -/
+structure TEHttpReq where
+  form : Go.R TEIn := .ok {}
+  deriving Inhabited
+/-- what the handler writes: an OAuth error (`WriteError`) or the token response (`resp.writeOut`) -/
+inductive TEHttp
+  | error (e : String)
+  | ok (r : ExchangeResp)
+  deriving DecidableEq, Repr, Inhabited
+
 namespace TE
 /-- `strings.Split` -/
 def split (s sep : String) : List String := s.splitOn sep
@@ -167,15 +258,45 @@ def teVerifyIDTokenHint (_now : Int) (token : String) (v : TEHintVerifier) : Go.
 def teAuthorizeClient (now : Int) (clientID clientSecret : String) (ex : TEProvider) : Go.R OPClient :=
   Gen.AuthorizeTokenExchangeClient now clientID clientSecret ex.base
 
-/-- `CreateAccessToken` (pkg/op/token.go) around the REGENERATED `createTokens` (passed in): the storage creates the token(s),
-    the access token string is minted from the id (opaque: Encrypt(id:subject); JWT: signed claims) -/
-def texCreateAccessToken (createTokens : TEAnyReq → TEStore → String → OPClient → Go.R (String × String × Int))
-    (now : Int) (r : TEReq) (tt : Nat) (p : TEProvider) (c : OPClient) (cur : String) : Go.R (String × String × Int) :=
-  match createTokens r.asTokenRequest p.Storage cur c with
-  | .error e => .error e
-  | .ok (id, newRefreshToken, exp) => .ok (TE.mintAccess tt id r.subject, newRefreshToken, exp - now)
+/-- the call `CreateAccessToken(ctx, tokenExchangeRequest, …)` of `CreateTokenExchangeResponse`: Go converts the
+    `*tokenExchangeRequest` to the interface `TokenRequest` implicitly; here the conversion is explicit. `f` is the REGENERATED
+    `GenTE.CreateAccessToken` (which calls the regenerated `createTokens`, `CreateJWT`, `CreateBearerToken`) -/
+def texAsTokenRequest (f : TEAnyReq → Nat → TEProvider → OPClient → String → Go.R (String × String × Int))
+    (r : TEReq) (tt : Nat) (p : TEProvider) (c : OPClient) (cur : String) : Go.R (String × String × Int) :=
+  f r.asTokenRequest tt p c cur
 
-def texCreateIDToken (_now : Int) (_iss : String) (r : TEReq) (_lifetime : Int) (_at _code : String) (_st : TEStore) (_c : OPClient) : Go.R String :=
-  .ok ("id-token-for:" ++ r.subject)
+/-- `oidc.NewAccessTokenClaims`: the REGENERATED constructor (Generated/Claims.lean) in the richer claims type -/
+def teNewAccessTokenClaims (now : Int) (issuer subject : String) (audience : List String) (expiration : Int) (jwtid clientID : String)
+    (skew : Int) : TEJWTClaims :=
+  { toTokenClaimsGo := (Gen.NewAccessTokenClaims now issuer subject audience expiration jwtid clientID skew).TokenClaims }
+
+/-- `SignerFromKey`: go-jose accepts the key or not -/
+def teSignerFromKey (k : TESigningKey) : Go.R TESigningKey :=
+  if k.signerOK then .ok k else .error "ErrSignerCreationFailed"
+
+/-- `crypto.Sign(claims, signer)` -/
+def teSignAT (c : TEJWTClaims) (s : TESigningKey) : Go.R String := s.signAT c
+
+/-- the call `CreateIDToken(ctx, issuer, tokenExchangeRequest, …)` of `CreateTokenExchangeResponse`: the implicit conversion of
+    the `*tokenExchangeRequest` to the interface `IDTokenRequest`, made explicit; `f` is the REGENERATED `GenTE.CreateIDToken` -/
+def texAsIDTokenRequest (f : String → TEAnyReq → Int → String → String → TEStore → OPClient → Go.R String)
+    (iss : String) (r : TEReq) (lifetime : Int) (atok code : String) (st : TEStore) (c : OPClient) : Go.R String :=
+  f iss r.asTokenRequest lifetime atok code st c
+
+/-- `oidc.NewIDTokenClaims`: the REGENERATED constructor (Generated/Claims.lean) in the richer claims type -/
+def teNewIDTokenClaims (now : Int) (issuer subject : String) (audience : List String) (expiration authTime : Int) (nonce acr : String)
+    (amr : List String) (clientID : String) (skew : Int) : TEIDTokenClaims :=
+  { toTokenClaimsGo := (Gen.NewIDTokenClaims now issuer subject audience expiration authTime nonce acr amr clientID skew).TokenClaims }
+
+def teDecodeRequest (_d : Unit) (r : TEHttpReq) (_postOnly : Bool) : Go.R TEIn := r.form
+def teNewClientRequest (_r : TEHttpReq) (d : TEIn) (c : OPClient) : TEClientRequest := { Data := d, Client := c }
+def teWriteError (_r : TEHttpReq) (e : String) : TEHttp := .error e
+/-- `NewResponse(resp)` wraps the data (headers are not modelled) -/
+def teNewResponse (r : ExchangeResp) : ExchangeResp := r
+
+/-- `oidc.ClaimHash`: symbolic (the C06 slice owns its definition; for an exchange both hashed inputs are empty and it is not called) -/
+def teClaimHash (claim alg : String) : Go.R String := .ok ("hash(" ++ alg ++ ":" ++ claim ++ ")")
+
+def teSignID (c : TEIDTokenClaims) (s : TESigningKey) : Go.R String := s.signID c
 
 end Hand
